@@ -152,7 +152,7 @@ class C18(Check):
     }
     required_probes = [
         "crash_with_nonzero_integral", "crash_with_live_velocity_mismatch", "dt_changed_across_checkpoint", "queries_dirtied_scratch",
-        "restart_in_new_process", "same_process_restart", "prelude_simulation_in_the_process_of_the_uninterrupted_run", "helper_stale_set", "late_start_time", "helper_empty_dir", "helper_clock_skew", "helper_torn_set", "helper_five_digit_index",
+        "restart_in_new_process", "same_process_restart", "prelude_simulation_in_the_process_of_the_uninterrupted_run", "helper_stale_set", "late_start_time", "helper_empty_dir", "helper_clock_skew", "helper_torn_set", "helper_body_store_missing", "helper_five_digit_index",
     ]
     tiers = {
         "quick": {"runs": 128, "batch": 1, "timeout": 600},
@@ -530,16 +530,23 @@ class C18(Check):
                 viol.append(("time_mismatch_accepted", f"body time skewed by {skew} against flow time but the helper returned {outcome[1]!r}"))
         elif sc == "torn":
             k = int(g.integers(1, n)) if n > 1 else 0
-            after = str(g.choice(["flow", "rod"]))
-            fam = {"flow": ("sopht",), "rod": ("sopht", "rod")}[after]
+            after = str(g.choice(["flow", "rod", "forcing"]))
+            fam = {"flow": ("sopht",), "rod": ("sopht", "rod"), "forcing": ("sopht", "rod", "forcing")}[after]
             if k >= 1:
                 stage_checkpoint(store, d, k - 1)
             stage_checkpoint(store, d, k, families=fam)
-            stage_checkpoint(store, d, k, families=("store",))
+            if after != "forcing":
+                stage_checkpoint(store, d, k, families=("store",))
             faults.append("torn_checkpoint_set")
             probes.append("helper_torn_set")
             outcome = call(k)
-            if outcome[0] == "returned":
+            if after == "forcing":
+                # the process died after the last h5 file and before the body store was written: there is
+                # no body checkpoint for index k, the helper must refuse
+                probes.append("helper_body_store_missing")
+                if outcome[0] == "returned":
+                    viol.append(("proceeded_without_body_checkpoint", f"flow, rod and forcing files of index {k} exist but the body store of that index does not; the helper returned {outcome[1]!r} instead of refusing"))
+            elif outcome[0] == "returned":
                 # allowed only if everything it loaded belongs to one index
                 for kk in (k, k - 1):
                     if kk >= 0 and not state_matches(kk):
